@@ -5,7 +5,9 @@ import (
 	"fmt"
 	"math/rand"
 	"sort"
+	"strconv"
 	"strings"
+	"sync/atomic"
 	"time"
 
 	"google.golang.org/protobuf/proto"
@@ -40,7 +42,17 @@ type session struct {
 	Equiv string `json:"equiv,omitempty"`
 	// UpdatesOnly: Pull(WithUpdatesOnly(true)) — no seed; the subscriber folds onto List taken at subscribe time
 	UpdatesOnly bool `json:"updates_only,omitempty"`
+	// RaceFirst: the first write after the subscription (Ops[NBefore], the single write of the first
+	// burst) is not issued after Pull has returned but by a concurrent writer that the include predicate
+	// itself starts, and waits for (at most raceGrace), at its first evaluation inside Pull - i.e. while
+	// Pull is computing the seed.  "The seed is the filtered list, and every later change is reported"
+	// under a writer that is as concurrent as a writer can be: on the code as it is the writer cannot
+	// commit before the listener is registered (the seed is computed and the listener registered under one
+	// read lock), so the stream is the same as without the race.
+	RaceFirst bool `json:"race_first,omitempty"`
 }
+
+const raceGrace = 20 * time.Millisecond
 
 // equivTok is the configured equivalence on value tokens ("-" = absent); reflexive and transitive.
 func equivTok(kind, a, b string) bool {
@@ -111,6 +123,7 @@ type burstObs struct {
 	List     string   // List(WithInclude) after the burst: id=v,...
 	FenceOK  bool
 	Blocked  bool // a write of the burst did not return within fenceTimeout
+	Raced    bool // the burst's first write was started by the predicate during Pull (RaceFirst)
 	Panicked string
 }
 
@@ -128,6 +141,22 @@ func applyOp(c *resource.Collection, op string) error {
 		_, err = c.Update(q[1], msgOf(q[2]), resource.WithCreateIfAbsent())
 	case "del":
 		_, err = c.Delete(q[1])
+	case "delc":
+		// Delete with a check callback that, on its first k invocations, writes to the collection itself
+		// (no lock is held while it runs): Delete's re-check under the lock then sees another item and retries
+		k, _ := strconv.Atoi(q[3])
+		calls := 0
+		_, err = c.Delete(q[1], resource.WithExpectedCheck(func(proto.Message) error {
+			calls++
+			if calls <= k {
+				if q[2] == "-" {
+					_, _ = c.Delete(q[1])
+				} else {
+					_, _ = c.Update(q[1], msgOf(q[2]))
+				}
+			}
+			return nil
+		}))
 	default:
 		panic("bad op " + op)
 	}
@@ -188,7 +217,39 @@ func (s session) run() (obs []burstObs) {
 	ctx, cancel := context.WithCancel(context.Background())
 	defer cancel()
 	var opts []resource.ReadOption
+	// the concurrent writer of a RaceFirst session
+	var armed atomic.Bool
+	raceStarted := false
+	raceDone := make(chan struct{})
+	var raceRes, racePanic string
 	if ff := s.Pred.filterFunc(); ff != nil {
+		if s.RaceFirst && len(s.Ops) > s.NBefore {
+			raceOp := s.Ops[s.NBefore]
+			plain := ff
+			ff = func(id string, m proto.Message) bool {
+				if armed.CompareAndSwap(true, false) {
+					raceStarted = true // same goroutine as the Pull call below
+					go func() {
+						defer close(raceDone)
+						panicked, msg := lib.Catch(func() {
+							if err := applyOp(c, raceOp); err != nil {
+								raceRes = "fail"
+							} else {
+								raceRes = "ok"
+							}
+						})
+						if panicked {
+							racePanic = msg
+						}
+					}()
+					select {
+					case <-raceDone:
+					case <-time.After(raceGrace):
+					}
+				}
+				return plain(id, m)
+			}
+		}
 		opts = append(opts, resource.WithInclude(ff))
 	}
 	opts = append(opts, resource.WithBackpressure(s.BP))
@@ -196,7 +257,9 @@ func (s session) run() (obs []burstObs) {
 	if s.UpdatesOnly {
 		opts = append(opts, resource.WithUpdatesOnly(true))
 	}
+	armed.Store(s.RaceFirst)
 	ch := c.Pull(ctx, opts...)
+	armed.Store(false)
 
 	// gated consumer: reads only while a drain is requested, up to the fence event
 	drainReq := make(chan struct{})
@@ -230,8 +293,10 @@ func (s session) run() (obs []burstObs) {
 
 	fenceOn := false
 	rest := s.Ops[s.NBefore:]
-	for _, n := range s.Bursts {
+	for bi, n := range s.Bursts {
 		var b burstObs
+		raced := bi == 0 && raceStarted && n >= 1 // the burst's first write is already under way
+		b.Raced = raced
 		burst := append([]string{}, rest[:n]...)
 		rest = rest[n:]
 		if fenceOn {
@@ -256,7 +321,15 @@ func (s session) run() (obs []burstObs) {
 		go func() {
 			var w wres
 			panicked, msg := lib.Catch(func() {
-				for _, op := range burst {
+				for oi, op := range burst {
+					if raced && oi == 0 {
+						<-raceDone
+						if racePanic != "" {
+							panic(racePanic)
+						}
+						w.results = append(w.results, raceRes)
+						continue
+					}
 					if err := applyOp(c, op); err != nil {
 						w.results = append(w.results, "fail")
 					} else {
@@ -300,33 +373,62 @@ func (s session) run() (obs []burstObs) {
 
 type shadow map[string]string
 
-func (sh shadow) apply(op string) (ok bool, id, kind, old, new string) {
+// pubEvent is one event a write publishes, in the property's vocabulary.
+type pubEvent struct{ id, kind, old, new string }
+
+// apply performs the write on the plain map; returns whether the call succeeds and the events it
+// publishes (a plain write: at most one; a Delete whose callback writes: the callback's and its own).
+func (sh shadow) apply(op string) (ok bool, evs []pubEvent) {
 	q := strings.Split(op, ":")
-	id = q[1]
+	id := q[1]
 	cur, present := sh[id]
 	switch q[0] {
 	case "add":
 		if present {
-			return false, id, "", "", ""
+			return false, nil
 		}
 		sh[id] = q[2]
-		return true, id, "ADD", "-", q[2]
+		return true, []pubEvent{{id, "ADD", "-", q[2]}}
 	case "upd", "ups":
 		if !present {
 			if q[0] == "upd" {
-				return false, id, "", "", ""
+				return false, nil
 			}
 			sh[id] = q[2]
-			return true, id, "ADD", "-", q[2]
+			return true, []pubEvent{{id, "ADD", "-", q[2]}}
 		}
 		sh[id] = q[2]
-		return true, id, "UPDATE", cur, q[2]
+		return true, []pubEvent{{id, "UPDATE", cur, q[2]}}
 	case "del":
 		if !present {
-			return false, id, "", "", ""
+			return false, nil
 		}
 		delete(sh, id)
-		return true, id, "REMOVE", cur, "-"
+		return true, []pubEvent{{id, "REMOVE", cur, "-"}}
+	case "delc":
+		// spec of a Delete that is interfered with k times: the interfering writes happen one by one, each
+		// makes Delete start over (at most 5 attempts), and what is finally removed - and announced - is
+		// the value stored at that moment
+		k, _ := strconv.Atoi(q[3])
+		for attempt := 0; attempt < 5; attempt++ {
+			cur, present = sh[id]
+			if !present {
+				return false, evs
+			}
+			if attempt < k {
+				if q[2] == "-" {
+					delete(sh, id)
+					evs = append(evs, pubEvent{id, "REMOVE", cur, "-"})
+				} else {
+					sh[id] = q[2]
+					evs = append(evs, pubEvent{id, "UPDATE", cur, q[2]})
+				}
+				continue
+			}
+			delete(sh, id)
+			return true, append(evs, pubEvent{id, "REMOVE", cur, "-"})
+		}
+		return false, evs
 	}
 	panic("bad op " + op)
 }
@@ -431,7 +533,7 @@ func bpName(b bool) string {
 }
 
 // monitor evaluates the property on the observations of one session.
-func (s session) monitor(m *lib.Monitor, obs []burstObs) {
+func (s session) monitor(m sink, obs []burstObs) {
 	sh := shadow{}
 	for _, op := range s.Ops[:s.NBefore] {
 		sh.apply(op)
@@ -448,6 +550,9 @@ func (s session) monitor(m *lib.Monitor, obs []burstObs) {
 	}
 	nontrivial := !s.Pred.Nil
 	for bi, b := range obs {
+		if b.Raced {
+			m.Count("first write started by the predicate during Pull's seed (RaceFirst)")
+		}
 		if b.Panicked != "" {
 			m.Violate(pre+"panic", "a write panicked while an include-filtered Pull was open", s, "no panic", b.Panicked)
 			return
@@ -464,7 +569,7 @@ func (s session) monitor(m *lib.Monitor, obs []burstObs) {
 		// expected per-write events (exact with backpressure)
 		var expected []expectation
 		for oi, op := range b.Ops {
-			ok, id, kind, old, new := sh.apply(op)
+			ok, pubs := sh.apply(op)
 			want := "ok"
 			if !ok {
 				want = "fail"
@@ -472,27 +577,30 @@ func (s session) monitor(m *lib.Monitor, obs []burstObs) {
 			if oi < len(b.Results) && b.Results[oi] != want {
 				m.Violate("C08/write/"+strings.Split(op, ":")[0]+"/wrong-result", "write result differs from a plain map", s, want, b.Results[oi])
 			}
-			if !ok {
-				continue
+			if len(pubs) > 1 {
+				m.Count(fmt.Sprintf("write publishing %d events (re-entrant delete)", len(pubs)))
 			}
-			exp, oin, nin := expectedEvent(s.Pred, id, kind, "0", old, new, "0", "0")
-			if exp != "drop" && s.Mask != "" {
-				// include judges the stored values; the mask then projects what is delivered
-				ef := splitComma(exp)
-				ef[3], ef[4] = projTok(s.Mask, ef[3]), projTok(s.Mask, ef[4])
-				exp = strings.Join(ef, ",")
-			}
-			if exp != "drop" && s.Equiv != "" {
-				// the equivalence judges the masked old/new of what include forwards
-				if ef := splitComma(exp); equivTok(s.Equiv, ef[3], ef[4]) {
-					exp = "drop"
+			for _, pe := range pubs {
+				id, kind := pe.id, pe.kind
+				exp, oin, nin := expectedEvent(s.Pred, id, kind, "0", pe.old, pe.new, "0", "0")
+				if exp != "drop" && s.Mask != "" {
+					// include judges the stored values; the mask then projects what is delivered
+					ef := splitComma(exp)
+					ef[3], ef[4] = projTok(s.Mask, ef[3]), projTok(s.Mask, ef[4])
+					exp = strings.Join(ef, ",")
 				}
+				if exp != "drop" && s.Equiv != "" {
+					// the equivalence judges the masked old/new of what include forwards
+					if ef := splitComma(exp); equivTok(s.Equiv, ef[3], ef[4]) {
+						exp = "drop"
+					}
+				}
+				cell := fmt.Sprintf("%s/%s-%s/pAbsent=%s", kind, inout(oin), inout(nin), tf(!s.Pred.Nil && s.Pred.eval(id, "-")))
+				if id != fenceID {
+					m.Count("cell " + kind + "/" + inout(oin) + "-" + inout(nin))
+				}
+				expected = append(expected, expectation{exp: exp, cell: cell, fence: id == fenceID})
 			}
-			cell := fmt.Sprintf("%s/%s-%s/pAbsent=%s", kind, inout(oin), inout(nin), tf(!s.Pred.Nil && s.Pred.eval(id, "-")))
-			if id != fenceID {
-				m.Count("cell " + kind + "/" + inout(oin) + "-" + inout(nin))
-			}
-			expected = append(expected, expectation{exp: exp, cell: cell, fence: id == fenceID})
 		}
 		if bi == 0 {
 			// the seed: ADD of every listed item, sorted by id, SeedValue set, LastSeedValue on the last
@@ -537,25 +645,54 @@ func (s session) monitor(m *lib.Monitor, obs []burstObs) {
 				body = body[1:]
 			}
 			body = body[:len(body)-1] // the fence event (FenceOK)
-			var writeExp *expectation
+			// the write's published events in order (usually one; a re-entrant delete publishes several)
+			var writeExps, wantList []expectation
+			var dropped *expectation
 			for i := range expected {
-				if !expected[i].fence {
-					writeExp = &expected[i]
+				if expected[i].fence {
+					continue
+				}
+				writeExps = append(writeExps, expected[i])
+				if expected[i].exp == "drop" {
+					dropped = &expected[i]
+				} else {
+					wantList = append(wantList, expected[i])
 				}
 			}
+			var wantStrs []string
+			for _, e := range wantList {
+				wantStrs = append(wantStrs, e.exp)
+			}
+			wantAll := "nothing"
+			if len(wantStrs) > 0 {
+				wantAll = showChanges(wantStrs)
+			}
 			switch {
-			case writeExp == nil:
+			case len(writeExps) == 0:
 				if len(body) > 0 {
 					m.Violate(pre+"spurious-event", "an event was delivered although no write succeeded", s, "nothing", showChanges(body))
 				}
-			case writeExp.exp == "drop":
-				if len(body) > 0 {
-					m.Violate(pre+writeExp.cell+"/delivered", "a change to an item that matches neither before nor after was delivered", s, "nothing", showChanges(body))
+			default:
+				reported := false
+				for i, e := range wantList {
+					if i >= len(body) {
+						m.Violate(pre+e.cell+"/not-delivered", "a change the filtered collection undergoes was not delivered", s, wantAll, showChanges(body))
+						reported = true
+						break
+					}
+					if !matchEvent(e.exp, body[i]) {
+						m.Violate(pre+e.cell+"/wrong-event", "the delivered stream is not the filtered edit script", s, wantAll, showChanges(body))
+						reported = true
+						break
+					}
 				}
-			case len(body) == 0:
-				m.Violate(pre+writeExp.cell+"/not-delivered", "a change the filtered collection undergoes was not delivered", s, writeExp.exp, "nothing")
-			case len(body) > 1 || !matchEvent(writeExp.exp, body[0]):
-				m.Violate(pre+writeExp.cell+"/wrong-event", "the delivered stream is not the filtered edit script", s, writeExp.exp, showChanges(body))
+				if !reported && len(body) > len(wantList) {
+					if dropped != nil {
+						m.Violate(pre+dropped.cell+"/delivered", "a change to an item that matches neither before nor after was delivered", s, wantAll, showChanges(body))
+					} else {
+						m.Violate(pre+writeExps[len(writeExps)-1].cell+"/wrong-event", "the delivered stream is not the filtered edit script", s, wantAll, showChanges(body))
+					}
+				}
 			}
 		}
 		for _, ev := range events {
@@ -621,8 +758,18 @@ func genOps(r *rand.Rand, ids []string, vals2 []string, n int) []string {
 			} else {
 				op = "add:" + id + ":" + v
 			}
-		case x < 6:
+		case x < 5:
 			op = "del:" + id
+		case x < 6:
+			// a delete that is interfered with: its check callback writes to the item itself k times
+			// (k = 5 exhausts the attempts: the delete fails after five published updates); now and then the
+			// callback deletes the item instead
+			k := []int{0, 1, 1, 1, 2, 5}[r.Intn(6)]
+			w := vals2[r.Intn(len(vals2))]
+			if r.Intn(6) == 0 {
+				w = "-"
+			}
+			op = fmt.Sprintf("delc:%s:%s:%d", id, w, k)
 		case x < 9:
 			op = "ups:" + id + ":" + v
 		default:
@@ -667,14 +814,23 @@ func genSession(r *rand.Rand, bp bool, small bool) session {
 	if r.Intn(5) == 0 {
 		s.UpdatesOnly = true
 	}
+	if !p.Nil && nb > 0 && r.Intn(90) == 0 {
+		// a writer as concurrent with the subscription as can be: see session.RaceFirst
+		s.RaceFirst = true
+	}
 	if bp {
-		s.Bursts = append(s.Bursts, 0)
+		if !s.RaceFirst {
+			s.Bursts = append(s.Bursts, 0)
+		}
 		for i := 0; i < na; i++ {
 			s.Bursts = append(s.Bursts, 1)
 		}
 	} else {
 		left := na
-		if r.Intn(2) == 0 {
+		if s.RaceFirst {
+			s.Bursts = append(s.Bursts, 1)
+			left--
+		} else if r.Intn(2) == 0 {
 			s.Bursts = append(s.Bursts, 0)
 		}
 		for left > 0 {
@@ -747,16 +903,20 @@ func (s session) codeAnswerBP(obs []burstObs) string {
 		for oi := range b.Ops {
 			isFence := oi == len(b.Ops)-1
 			ev := "drop"
-			if oi < len(b.Results) && b.Results[oi] == "fail" {
+			if !isFence && len(events) > 1 {
+				// everything before the fence event belongs to the write (a re-entrant delete publishes
+				// several, also when it fails in the end)
+				ev = strings.Join(events[:len(events)-1], ";")
+				events = events[len(events)-1:]
+			} else if oi < len(b.Results) && b.Results[oi] == "fail" && !strings.HasPrefix(b.Ops[oi], "delc:") {
+				// (a re-entrant delete may fail after publishing events that include drops: its result is
+				// judged by the monitor, the model's answer only lists what is delivered)
 				ev = "fail"
 			} else if isFence {
 				if len(events) > 0 {
 					ev = events[len(events)-1]
 					events = events[:len(events)-1]
 				}
-			} else if len(events) > 1 {
-				ev = events[0]
-				events = events[1:]
 			}
 			if isFence {
 				if len(events) > 0 {
@@ -810,7 +970,7 @@ func runPull(f lib.Flags, res *lib.Result, drv *lib.Driver) {
 	for i := 0; i < n; i++ {
 		bp := i%2 == 0
 		s := genSession(r, bp, i < n/5)
-		if evalSession(s, drv, tieBP, tieLossy, mon) {
+		if evalSession(res, s, drv, tieBP, tieLossy, mon) {
 			stuck++
 			if stuck > 6 {
 				// every such session costs seconds; the pipeline is broken beyond doubt
@@ -824,9 +984,19 @@ func runPull(f lib.Flags, res *lib.Result, drv *lib.Driver) {
 }
 
 // evalSession returns true when the session got stuck (a write blocked or a fence was lost).
-func evalSession(s session, drv *lib.Driver, tieBP, tieLossy *lib.Tie, mon *lib.Monitor) (stuck bool) {
-	obs := s.run()
-	s.monitor(mon, obs)
+func evalSession(res *lib.Result, s session, drv *lib.Driver, tieBP, tieLossy *lib.Tie, mon sink) (stuck bool) {
+	// a violation is reported only if it reproduces on a fresh collection (confirm.go); the tie uses the first run
+	var obs []burstObs
+	runs := 0
+	confirmed(res, mon, func(sk sink) any {
+		o := s.run()
+		if runs == 0 {
+			obs = o
+		}
+		runs++
+		s.monitor(sk, o)
+		return o
+	}, func(t1, t2 any) any { return enrich(s, t1, t2) })
 	for _, b := range obs {
 		if b.Blocked || !b.FenceOK {
 			stuck = true
